@@ -28,6 +28,10 @@ def fam_F2():
     prog('jset-32', ld(2, 0), ld(3, 8), insn(0xb7, 0, 0, 0, 0), insn(0x4e, 2, 3, 1), insn(0x95), insn(0xb7, 0, 0, 0, 1), insn(0x95))
     prog('div-by-zero-continue', ld(2, 0), ld(3, 8), insn(0x3f, 2, 3), insn(0x9f, 3, 2), insn(0xbf, 0, 2), insn(0x0f, 0, 3), insn(0x95))
     prog('store-load', ld(2, 0), insn(0x7b, 10, 2, -8), insn(0x62, 10, 0, -16, -2), insn(0x79, 0, 10, -8), insn(0x61, 3, 10, -16), insn(0x0f, 0, 3), insn(0x7b, 1, 0, 16), insn(0x95))
+    # a back edge that crosses a wide load, a 32-bit signed back edge, and a forward jump landing just past a trailing wide load
+    prog('backward-over-lddw', ld(2, 0), insn(0xb7, 0), insn(0xb7, 3, 0, 0, 2), lddw(4, 0x100000001), insn(0x0f, 0, 4), insn(0x0f, 0, 2), insn(0x07, 3, 0, 0, -1), insn(0x55, 3, 0, -6, 0), insn(0x95))
+    prog('jmp32-signed-back-edge', ld(2, 0), insn(0xb7, 0), insn(0xb4, 3, 0, 0, 2), insn(0x0f, 0, 2), insn(0x04, 3, 0, 0, -1), insn(0x66, 3, 0, -3, 0), insn(0x95))
+    prog('land-after-lddw', ld(2, 0), insn(0xb7, 0, 0, 0, 3), insn(0x1d, 2, 0, 3, 0), lddw(0, 0xffffffff00000001), insn(0x0f, 0, 2), insn(0x95))
     prog('dead-code', ld(2, 0), insn(0xbf, 0, 2), insn(0x95), insn(0xb7, 0, 0, 0, 99), insn(0x95))
     return P
 
